@@ -52,6 +52,9 @@ func VerifyMSI(f io.ReaderAt, skipDigests bool) (*MSISignature, error) {
 		return nil, err
 	}
 	for _, item := range files {
+		if item.Type != comdoc.DirStream {
+			continue
+		}
 		name := item.Name()
 		if comdoc.SameName(name, msiDigitalSignature) {
 			r, err := cdf.ReadStream(item)
